@@ -22,7 +22,8 @@ const char *const ctr_names[CT_N] = {
         "reattach_with_jobs_in_flight", "reattach_idle", "api_misuse_injected", "solo_runs", "reference_checks",
         "reference_not_admitted", "memory_checks", "objects_end_flush_to_guard", "objects_start_flush_to_guard",
         "chained_jobs", "out_of_place_jobs", "special_iv_jobs", "max_jobs_in_flight", "residue_scans", "sync_bursts",
-        "direct_calls", "keyprep_calls", "sgl_segments", "cross_variant_runs", "ops_degraded_to_noop"
+        "direct_calls", "keyprep_calls", "sgl_segments", "cross_variant_runs", "ops_degraded_to_noop",
+        "reattach_through_other_library_image_with_old_image_inaccessible", "preemption_inside_a_call_fired", "preemption_point_not_reached"
 };
 
 // ------------------------------------------------------------------ plan <-> JSON
@@ -221,6 +222,8 @@ struct Task {
 struct StreamState;
 struct Ctx {
         std::vector<StreamState *> streams;
+        bool use_copies = false;  // managers are created through library copy A (C16 other-image mode)
+        bool copyA_dead = false;
         const Plan *plan;
         const RunOpts *opts;
         RunResult *res;
@@ -1140,11 +1143,27 @@ op_reinit(Ctx &c, Task &t, int cfg)
 void
 op_reattach(Ctx &c, Task &t, int mode)
 {
-        (void) mode;
         ctr(c, t.fifo.empty() ? CT_REATTACH_IDLE : CT_REATTACH_INFLIGHT);
-        IMB_MGR *m2 = (IMB_MGR *) tc("imb_set_pointers_mb_mgr", t.mgr.img->imb_set_pointers_mb_mgr, t.mgr.mem.p,
-                                     cfg_flags(t.mgr.cfg), 0u);
-        evlog(c, t, 0x5241, t.fifo.size(), 0, "re-attach (no reset) with %zu jobs in flight", t.fifo.size());
+        const LibImage *old_img = t.mgr.img;
+        const LibImage *new_img = old_img;
+        if (mode == 1 && c.use_copies && old_img == image_copy(0) && !c.copyA_dead) {
+                // the "crashed process": every mapping of the library copy that created this state becomes
+                // inaccessible (text, tables, globals); the re-attaching side is a different copy at other addresses
+                if (t.solo.m)
+                        mgr_destroy(t.solo);
+                for (auto &x : t.xvar)
+                        if (x.m)
+                                mgr_destroy(x);
+                if (image_protect(image_copy(0), true)) {
+                        c.copyA_dead = true;
+                        new_img = image_copy(1);
+                        ctr(c, CT_REATTACH_OTHER_IMAGE);
+                }
+        }
+        IMB_MGR *m2 = (IMB_MGR *) tc("imb_set_pointers_mb_mgr", new_img->imb_set_pointers_mb_mgr, t.mgr.mem.p, cfg_flags(t.mgr.cfg), 0u);
+        t.mgr.img = new_img;
+        evlog(c, t, 0x5241, t.fifo.size(), (uint64_t) (new_img != old_img), "re-attach (no reset%s) with %zu jobs in flight",
+              new_img != old_img ? ", through a different library image; the old image is inaccessible" : "", t.fifo.size());
         if (m2 != t.mgr.m)
                 violate(c, "reattach.pointer", "imb_set_pointers_mb_mgr returned a different manager pointer");
         uint32_t qs = L_queue_size(t.mgr.m);
@@ -1277,13 +1296,16 @@ run_plan(const Plan &p, const RunOpts &o)
         g_aux_live.clear();
         uint64_t calls0 = g_calls_total;
 
+        for (auto &op : p.ops)
+                if (op.kind == OP_REATTACH && op.a == 1 && image_copy(0) && image_copy(1))
+                        c.use_copies = true;
         int sig = sigsetjmp(g_jmp, 1);
         if (sig == 0) {
                 g_jmp_armed = 1;
                 for (size_t i = 0; i < c.tasks.size(); i++) {
                         if (o.only_task >= 0 && (int) i != o.only_task)
                                 continue;
-                        if (!mgr_create(c.tasks[i].mgr, p.task_cfg[i])) {
+                        if (!mgr_create(c.tasks[i].mgr, p.task_cfg[i], c.use_copies ? image_copy(0) : &g_img)) {
                                 violate(c, "init.failed", std::string("initialisation failed for ") + cfg_name(p.task_cfg[i]));
                                 goto done;
                         }
@@ -1393,6 +1415,8 @@ run_plan(const Plan &p, const RunOpts &o)
                         delete st;
                 }
         res.ctr[CT_CALLS] = g_calls_total - calls0;
+        if (c.copyA_dead)
+                image_protect(image_copy(0), false); // next run starts with both copies usable again
         g_ctx = nullptr;
         g_cc_violation = nullptr;
         g_callctx.scrub = false;
